@@ -55,7 +55,17 @@ structure Node where
   split : Split
   comb : List Key                -- combiner, dotted names (own fields dotted with the node's own name)
   nested : Bool := false         -- the node is itself a workflow (`ia = Enc(tag, x, y, z); ib = Enc(tag, ia.out)`)
+  /-- `State.current_combiner`: the combiner keys pydra treats as the node's *own* — those whose dotted string CONTAINS the
+      node's name (`self.name in comb`, a substring test).  `none` = exactly the keys of the node itself (what it is whenever
+      no node name is a substring of another node's dotted key); the driver computes it from the real strings. -/
+  ownCombOverride : Option (List Key) := none
   deriving Repr, Inhabited
+
+/-- The combiner keys classified as "current" by `State.current_combiner`. -/
+def Node.ownComb (nd : Node) : List Key :=
+  match nd.ownCombOverride with
+  | some l => l
+  | none => nd.comb.filter fun c => c.1 == nd.name
 
 def Node.src (nd : Node) : Fld → Src
   | .x => nd.x
